@@ -65,12 +65,23 @@ def check_not_found(chk, prog, fns):
                     if d.get("init") is not None and X.strip(d["init"]).get("k") == "call" and X.callee_name(X.strip(d["init"])) in ("strstr", "strchr", "strrchr", "index", "rindex", "memmem", "memchr"):
                         res_locals.add("d%d" % d["d"])
 
+        def is_len(v):
+            v = X.strip(v)
+            return v is not None and v.get("k") == "member" and v.get("n") == "len" and X.strip(v["ch"][0]).get("pi") == 0
+
         def visit(state, nd, blk):
             if nd.get("k") == "return" and nd.get("val") is not None:
                 if any(("null", p) in state for p in res_locals):
-                    v = X.strip(nd["val"])
-                    ok = v.get("k") == "member" and v.get("n") == "len" and X.strip(v["ch"][0]).get("pi") == 0
-                    (good if ok else bad).append(nd)
+                    (good if is_len(nullness.resolve_conditional(nd["val"], state)) else bad).append(nd)
+                elif X.strip(nd["val"]).get("k") == "cond":
+                    # return (hit ? index : self->len): the arm taken when the search result is NULL
+                    for p in res_locals:
+                        if ("nn", p) in state:
+                            continue
+                        st2 = frozenset(set(state) | {("null", p)})
+                        v2 = nullness.resolve_conditional(nd["val"], st2)
+                        if v2 is not nd["val"]:
+                            (good if is_len(v2) else bad).append(nd)
         flow.forward(cfg, frozenset(), nullness.transfer, refine=nullness.refine, visit=visit)
         ok = bool(good) and not bad
         chk.ob("B2", f.name, "not-found-returns-len", ok, loc=f.loc(bad[0]) if bad else f.loc(f.body),
